@@ -716,6 +716,19 @@ def g14(ctx):
                        '%s/%s:%d' % (g.crate, wf.file, wf.line),
                        '%s (%s) cannot consume %s on its own: white space that only differs in its line-end convention (CR, or CR CR LF after a doubled conversion) '
                        'or blank kind then changes whether the source is accepted' % (ws_role, bname or 'body', ['%r' % c for c in miss]))
+    # complete input only: nom's `streaming` parsers answer Err::Incomplete at the end of the text, which alt / opt / many0 hand on instead of
+    # treating as "no match" — a truncated text then fails (in incomplete mode: Error::Parse(None)) where the `complete` variant simply stops
+    for fl_, fv_ in sx.crate_files(ctx.syn, g.crate).items():
+        for mp_, it_ in sx.items_rec(fv_['items']):
+            if it_['k'] == 'use' and '::streaming' in str(it_.get('tree', '')).replace(' ', ''):
+                r.fail('%s:streaming-parser:%s' % (g.crate, fl_), '%s/%s:%s' % (g.crate, fl_, it_.get('l')),
+                       '`use %s` brings streaming parsers into %s: at the end of the input they return Err::Incomplete, which the choice and repetition combinators do not absorb — '
+                       'a text that ends inside such a token is an error in both modes' % (str(it_.get('tree'))[:60], fl_))
+    for f in g.parsers():
+        for n_ in sx.walk(f.item.get('body')):
+            if n_.get('k') == 'path' and '::streaming::' in n_['p']:
+                r.fail('%s:streaming-parser:%s' % (g.crate, f.name), '%s/%s:%s' % (g.crate, f.file, n_.get('l') or f.line),
+                       '%s uses the streaming parser `%s` (Err::Incomplete at the end of the input is not absorbed by alt / opt / many0)' % (f.name, n_['p']))
     r.floor('raw_lexers', n, 45)
     return r
 
